@@ -4,10 +4,13 @@ import (
 	"fmt"
 	"os"
 	"path/filepath"
+	"sort"
 	"time"
 
 	"github.com/nspcc-dev/neo-go/pkg/config"
 	"github.com/nspcc-dev/neo-go/pkg/core"
+	"github.com/nspcc-dev/neo-go/pkg/core/native/noderoles"
+	"github.com/nspcc-dev/neo-go/pkg/crypto/keys"
 	"github.com/nspcc-dev/neo-go/pkg/core/storage"
 	"github.com/nspcc-dev/neo-go/pkg/core/storage/dbconfig"
 	"go.uber.org/zap"
@@ -25,6 +28,9 @@ type ChainCfg struct {
 	SRIH              bool   `json:"srih,omitempty"`
 	P2PSig            bool   `json:"p2psig,omitempty"`
 	StateExchange     bool   `json:"state_exchange,omitempty"`
+	// GenesisRoles: bitmask of node roles designated in the genesis block (NeoGo extension Genesis.Roles): 1 Oracle,
+	// 2 StateValidator, 4 NeoFSAlphabet, 8 P2PNotary; RoleKeys[i%3] and RoleKeys[(i+1)%3] for the i-th of them.
+	GenesisRoles int `json:"genesis_roles,omitempty"`
 	StateSyncInterval int    `json:"state_sync_interval,omitempty"`
 	MTB               uint32 `json:"mtb,omitempty"`
 	MaxVUBInc         uint32 `json:"max_vub_inc,omitempty"`
@@ -116,6 +122,16 @@ func (c ChainCfg) Blockchain(n NodeCfg) config.Blockchain {
 			SaveStorageBatch:        n.SaveStorageBatch,
 			SaveInvocations:         n.SaveInvocations,
 		},
+	}
+	if c.GenesisRoles != 0 {
+		cfg.Genesis.Roles = map[noderoles.Role]keys.PublicKeys{}
+		for i, r := range []noderoles.Role{noderoles.Oracle, noderoles.StateValidator, noderoles.NeoFSAlphabet, noderoles.P2PNotary} {
+			if c.GenesisRoles&(1<<uint(i)) != 0 {
+				ks := keys.PublicKeys{RoleKeys[i%3].Pub, RoleKeys[(i+1)%3].Pub}
+				sort.Sort(ks)
+				cfg.Genesis.Roles[r] = ks
+			}
+		}
 	}
 	if len(c.ValidatorsHistory) > 0 {
 		cfg.ValidatorsCount = 0
